@@ -2,7 +2,7 @@
 from . import steps
 
 OWNED = ["C14."]
-REQUIRED = ["C14.step_solves_reference_newton_system", "C14.next_point_is_clipped_step", "C14.next_multiplier", "C14.simplified_step_uses_base_matrix_and_current_residual", "C14.newton_variants_same_first_system", "C14.qp_one_step_solves_implicit_euler", "C14.one_factorisation_one_solve", "C14.requested_active_set_is_used"]
+REQUIRED = ["C14.step_solves_reference_newton_system", "C14.next_point_is_clipped_step", "C14.next_multiplier", "C14.simplified_step_uses_base_matrix_and_current_residual", "C14.newton_variants_same_first_system", "C14.qp_one_step_solves_implicit_euler", "C14.one_factorisation_one_solve", "C14.requested_active_set_is_used", "C14.consecutive_steps_solve_their_reference_systems"]
 META = dict(
     functions_encoded=steps.FUNCTIONS,
     stubs=[
@@ -10,7 +10,7 @@ META = dict(
         "user problem := fresh real symbols per distinct evaluation point, Lagrangian Hessian H0 + sum_i y_i H_i (multiplier-linear); QP harness: symbolic Q, q, A, b",
     ],
     assumptions=["exact real arithmetic (nlsat); the linear solver solves its system exactly (iterative solvers' tolerance: C17)", "base point inside the box, rho > 0, dt > 0", "sparse additions drop exact zeros as scipy does (explored by forking for the asymmetric formulation)"],
-    bounds=dict(quick="n<=2, m<=1, all four step solvers, all variable kinds; second simplified step n=m=1; Newton variants n<=2, with the default active set and with a caller-chosen symbolic tau; QP n=m=1", thorough="n<=2, m<=2 (Standard n=3); QP n=2"),
+    bounds=dict(quick="n<=2, m<=1, all four step solvers, all variable kinds; second simplified step n=m=1; two consecutive steps of one ActiveSet / Full method object (active set free to change) n=m=1; Newton variants n<=2, with the default active set and with a caller-chosen symbolic tau; QP n=m=1", thorough="n<=2, m<=2 (Standard n=3); QP n=2"),
     outside=["n>2 (scaled formulations), m>2", "iterative linear solvers' tolerance", "floating-point rounding"],
     explanation="The step (dx before clipping, dy) returned by each real step solver is proved (nlsat, fresh solver) to satisfy the dense reference Newton system F'(z_hat) s = F(z) for the active set it used; Newton variants hand identical first systems to the linear solver; on symbolic QPs one step zeroes the residual.",
 )
@@ -39,6 +39,10 @@ def tasks(tier):
     for sv in ("Standard", "Symmetric") if q else steps.SOLVERS:
         t.append(dict(module="steps", fn="h_variants", shape=dict(vars=["boxed"], cons=["eq0"], solver=sv, tau=True), opts=o))
     t.append(dict(module="steps", fn="h_variants", shape=dict(vars=["lower", "upper"], cons=[], solver="Extended", tau=True), opts=o))
+    # two consecutive steps of one method object (the active set may change in between)
+    seqs = [("Standard", "ActiveSet"), ("Symmetric", "ActiveSet"), ("Extended", "Full")] if q else [(sv, nt) for sv in steps.SOLVERS for nt in ("ActiveSet", "Full", "Simplified")]
+    for sv, nt in seqs:
+        t.append(dict(module="steps", fn="h_sequence", shape=dict(vars=["boxed"], cons=["eq0"], solver=sv, newton=nt), opts=dict(of if sv == "Asymmetric" else o, point_consistency=True)))
     for sv in ("Standard", "Asymmetric") if q else steps.SOLVERS:
         t.append(dict(module="steps", fn="h_qp", shape=dict(vars=["boxed"], m=1, solver=sv), opts=o))
     if not q:
